@@ -111,6 +111,35 @@ impl BindgenContext {
 #[verifier::reject_recursive_types(K)]
 #[verifier::reject_recursive_types(V)]
 pub struct HashMap<K, V> { _p: core::marker::PhantomData<(K, V)> }
+impl<K, V> HashMap<K, V> {
+    pub uninterp spec fn view(&self) -> Map<K, V>;
+    #[verifier::external_body]
+    pub fn get(&self, k: &K) -> (r: Option<&V>)
+        ensures r.is_some() == self.view().contains_key(*k), r.is_some() ==> *r.unwrap() == self.view()[*k],
+    { unimplemented!() }
+}
+pub enum EntryKind { Occupied, Vacant }
+// R17 (as in unit lattice_insert): the Entry API on the table
+#[verifier::external_body]
+pub fn map_entry<K, V>(m: &HashMap<K, V>, k: &K) -> (r: EntryKind) ensures (r is Occupied) == m.view().contains_key(*k) { unimplemented!() }
+#[verifier::external_body]
+pub fn map_get<K, V: Copy>(m: &HashMap<K, V>, k: &K) -> (r: V) requires m.view().contains_key(*k), ensures r == m.view()[*k] { unimplemented!() }
+#[verifier::external_body]
+pub fn map_insert<K, V>(m: &mut HashMap<K, V>, k: K, v: V) ensures final(m).view() == old(m).view().insert(k, v) { unimplemented!() }
+pub struct Layout { pub size: usize, pub align: usize, pub packed: bool }
+impl Type {
+    pub uninterp spec fn s_layout(&self, ctx: &BindgenContext) -> Option<Layout>;
+    #[verifier::external_body] pub fn layout(&self, ctx: &BindgenContext) -> (r: Option<Layout>) ensures r == self.s_layout(ctx) { unimplemented!() }
+}
+impl Item {
+    pub uninterp spec fn s_as_type(&self) -> Option<Type>;
+    #[verifier::external_body] pub fn as_type(&self) -> (r: Option<&Type>)
+        ensures r.is_some() == self.s_as_type().is_some(), r.is_some() ==> *r.unwrap() == self.s_as_type().unwrap() { unimplemented!() }
+}
+impl BindgenContext {
+    pub uninterp spec fn s_item(&self, id: ItemId) -> Item;
+    #[verifier::external_body] pub fn resolve_item(&self, id: ItemId) -> (r: &Item) ensures *r == self.s_item(id) { unimplemented!() }
+}
 pub uninterp spec fn s_lookup(m: &HashMap<ItemId, CanDerive>, t: TypeId) -> CanDerive;
 // stands for: self.can_derive.get(&t.into()).copied().unwrap_or_default()
 #[verifier::external_body]
@@ -118,7 +147,7 @@ pub fn table_lookup(m: &HashMap<ItemId, CanDerive>, t: TypeId) -> (r: CanDerive)
 
 // which of the three reader predicates (returned as fn pointers by the real code)
 #[derive(Clone, Copy, PartialEq, Eq, Structural)]
-pub enum EdgePredicate { Comp(DeriveTrait), TypeRef(DeriveTrait), TmplInst(DeriveTrait) }
+pub enum EdgePredicate { Comp(DeriveTrait), TypeRef(DeriveTrait), TmplInst(DeriveTrait), Default }
 impl DeriveTrait {
     #[verifier::external_body] pub fn consider_edge_comp(self) -> (r: EdgePredicate) ensures r == EdgePredicate::Comp(self) { unimplemented!() }
     #[verifier::external_body] pub fn consider_edge_typeref(self) -> (r: EdgePredicate) ensures r == EdgePredicate::TypeRef(self) { unimplemented!() }
